@@ -287,3 +287,53 @@ Example C07_ra_wellformed_inhabited :
 Proof. exact ra_wf_inhabited. Qed.
 Print Assumptions C07_ra_wellformed_inhabited.
 
+
+(* ================================================================ *)
+(* DNS question bytes: the reference RFC 1035 question decoder inverts the query encoders *)
+From PV Require Import Proofs.SendDns.
+
+(* a name whose labels are 1..63 bytes long (split at '.'), any type and class: header says one question,
+   the labels, type and class decode back, nothing trails *)
+Theorem C07_dns_question_decodes_back : forall name qt qc,
+  Forall label_ok (split_dots name []) -> qt < 65536 -> qc < 65536 ->
+  wf_dns_query None (split_dots name []) qt qc (dns_query 0 0 (dns_name name) qt qc) = true.
+Proof. exact dns_query_decodes. Qed.
+Print Assumptions C07_dns_question_decodes_back.
+
+(* SendMDNSQuery, full: 224.0.0.251:5353, 01:00:5e:00:00:fb, question = (name, ANY, ANY) *)
+Theorem C07_mdns_query_wellformed : forall c name,
+  mac_ok (host_mac c) -> ip4_ok (host_ip4 c) -> bytes_ok name -> (length name <= 250)%nat ->
+  Forall label_ok (split_dots name []) ->
+  exists fr, send_mdns_query c name = Ok [fr] /\
+    wf_udp4 (host_mac c) (mac_of_mcast4 [224;0;0;251]) (host_ip4 c) [224;0;0;251] 5353 5353
+      (wf_dns_query None (split_dots name []) 255 255) true fr = true.
+Proof. exact mdns_query_wf. Qed.
+Print Assumptions C07_mdns_query_wellformed.
+
+(* SendLLMNRQuery, full: 224.0.0.252:5355, 01:00:5e:00:00:fc, question = (name, PTR, ANY) *)
+Theorem C07_llmnr_query_wellformed : forall c name,
+  mac_ok (host_mac c) -> ip4_ok (host_ip4 c) -> bytes_ok name -> (length name <= 250)%nat ->
+  Forall label_ok (split_dots name []) ->
+  exists fr, send_llmnr_query c name = Ok [fr] /\
+    wf_udp4 (host_mac c) (mac_of_mcast4 [224;0;0;252]) (host_ip4 c) [224;0;0;252] 5355 5355
+      (wf_dns_query None (split_dots name []) 12 255) true fr = true.
+Proof. exact llmnr_query_wf. Qed.
+Print Assumptions C07_llmnr_query_wellformed.
+
+(* SendNBNSQuery, full: the question name is the RFC 1001 encoding of the 16-byte padded name, type NB, class IN *)
+Theorem C07_nbns_query_wellformed : forall c sm si dm di seq name junk,
+  mac_ok (host_mac c) -> ip4_ok si -> mac_ok dm -> ip4_ok di -> seq < 65536 ->
+  bytes_ok name -> (length name <= 16)%nat -> length junk = EthMaxSize ->
+  exists fr, send_nbns_query c (sm, si) (dm, di) seq name junk = Ok [fr] /\
+    wf_udp4 (host_mac c) dm si di 137 137 (wf_dns_query (Some seq) [nb_label name] 32 1) false fr = true.
+Proof. exact nbns_query_wf. Qed.
+Print Assumptions C07_nbns_query_wellformed.
+
+(* SendNBNSNodeStatus, full: broadcast, name "*", type NBSTAT *)
+Theorem C07_nbns_node_status_wellformed : forall c seq junk,
+  mac_ok (host_mac c) -> ip4_ok (host_ip4 c) -> seq < 65536 -> length junk = EthMaxSize ->
+  exists fr, send_nbns_node_status c seq junk = Ok [fr] /\
+    wf_udp4 (host_mac c) eth_bcast (host_ip4 c) [255;255;255;255] 137 137
+      (wf_dns_query (Some seq) [nb_label [42]] 33 1) true fr = true.
+Proof. exact nbns_node_status_wf. Qed.
+Print Assumptions C07_nbns_node_status_wellformed.
